@@ -409,6 +409,8 @@ func report(p *Program, prop, tier string, seed int, runs []*funcRun, pin, verbo
 	groupMembers := map[string]int{}
 	detached := map[string]bool{}
 	var undecidedNew []string
+	newPanicTried := 0
+	preCE := map[string]ceResult{}
 	extraDischarged := 0
 	baselineUndecided := map[string]bool{}
 	if data, err := os.ReadFile(filepath.Join(verifDir, "obligations", prop+".undecided")); err == nil {
@@ -445,6 +447,19 @@ func report(p *Program, prop, tier string, seed int, runs []*funcRun, pin, verbo
 				knownLines = append(knownLines, fmt.Sprintf("KNOWN-FINDING: property=%s %s: %s", prop, n, kf.What))
 			} else if kf, ok := knownOpen[g]; ok {
 				knownLines = append(knownLines, fmt.Sprintf("KNOWN-FINDING: property=%s %s: %s", prop, n, kf.What))
+			} else if fc := p.Cs.Funcs[o.Func]; fc != nil && fc.NoPanic && fc.Opts["replay"] != "" && strings.HasPrefix(o.Kind, "nopanic") && o.Result == "sat" && newPanicTried < 3 {
+				// a possible panic that was not there on the unchanged tree, in a function whose
+				// contract claims "no panic": a violation only when the model replays as a panic of
+				// the real function under the contract's precondition (otherwise undecided)
+				newPanicTried++
+				ce := findCounterexample(p, o)
+				if ce.confirmed {
+					claimed++
+					fails = append(fails, failure{n, "new possible panic, confirmed by replay on the real code", o})
+					preCE[n] = ce
+				} else {
+					undecidedNew = append(undecidedNew, n+" => "+o.Result+" (possible new panic; the model did not replay as a panic on the real code)")
+				}
 			} else {
 				undecidedNew = append(undecidedNew, n+" => "+o.Result)
 			}
@@ -545,7 +560,10 @@ func report(p *Program, prop, tier string, seed int, runs []*funcRun, pin, verbo
 					continue
 				}
 				ceTried++
-				ce := findCounterexample(p, fl.o)
+				ce, have := preCE[fl.name]
+				if !have {
+					ce = findCounterexample(p, fl.o)
+				}
 				for k, v := range ce.report {
 					rep[k] = v
 				}
